@@ -21,7 +21,8 @@ CHECKS = {
              "that an immediate reaches the helper with every bit of the destination width, abort freedom of the helpers and actions, and - as closed forms over "
              "the operands - the stored result (R11: affine form equal to the manual's value mod 2^w, per incoming carry) and CF, AF, OF, SF, ZF of ADD/ADC/SUB/SBB/CMP/"
              "INC/DEC (R12: predicate normal forms D>0 / D==0 / xor compared with the manual's definition; a different form comes with a concrete operand "
-             "pair; NEG on four operand cells plus the condition of its AF branch). Does NOT decide PF as a value.",
+             "pair; NEG on four operand cells plus the condition of its AF branch), and PF as the even parity of the result's low byte (the parity helper is decided on the bit "
+             "domain, where xor-folds are exact linear forms over GF(2)).",
         design="DESIGN.md §6 C01"),
     "C02": dict(
         technique="abstract interpretation of MIR (bit domain exact for logic ops and NOT and, with the count specialised, for every shift and rotate; trace partitioning on the input bits that decide CF/SF/OF; interval abort analysis); sibling fingerprints of byte/word shift and rotate implementations",
@@ -29,7 +30,8 @@ CHECKS = {
              "stores nothing; count==0 changes neither operand nor flags; no count 0..255 aborts a helper; the `, cl` forms pass exactly CL; required dependencies; shl==sal; "
              "flag frames for count>=1; and exactly, for every count (0..34 and six larger in quick, all 256 in thorough) and every operand at once: the shifted/rotated "
              "value as a permutation of operand bits, CF, SF and OF at count 1, compared with k applications of the manual's single-bit step (R12). "
-             "Does NOT decide ZF/PF as values (their dependencies are decided).",
+             "SF, ZF and PF of the logic ops and shifts are tests of the returned value itself (R13: `x == 0`, a top-bit test, a parity helper applied to x). "
+             "Does NOT decide TEST's flags beyond their dependencies (it tests a conjunction it does not return).",
         design="DESIGN.md §6 C02"),
 }
 
@@ -39,7 +41,8 @@ CHECKS["C03"] = dict(
          "test; Err => nothing modified, action returns INT(0), driver returns), that CF/OF of MUL/IMUL depend on both factors, frames of MUL/DIV and "
          "of AAA..CWD, CBW/CWD sign dependency; and, as closed forms with uninterpreted product / quotient / remainder terms, AX and DX after MUL, IMUL, DIV, IDIV "
          "(R11, structural comparison with the manual; divisions on their Ok paths) and the condition under which MUL/IMUL set CF=OF (R12, the condition of the "
-         "helper's flag branch). Does NOT decide the decimal-adjust results as numbers.",
+         "helper's flag branch), AAM/AAD as plain arithmetic, and two clauses of the other adjusts (AAA/AAS zero AL's high nibble on every path; DAA/DAS make "
+         "their high-digit test on the adjusted AL). Does NOT decide the DAA/DAS/AAA/AAS results as numbers.",
     design="DESIGN.md §6 C03")
 
 CHECKS["C04"] = dict(
@@ -69,7 +72,7 @@ CHECKS["C07"] = dict(
     text="Decides: source element at DS:SI and destination element at ES:DI (exact forms, required segment dependency); SI/DI step +/-size mod 2^16 "
          "under DF; word elements use cells p,p+1 in both directions; who may write memory/AL,AX/flags; CMPS/SCAS operand roles; REP protocol (nothing "
          "executes with CX=0, CX-1 and REPEAT otherwise, ZF test of REPE/REPNE); driver re-issues the same index on REPEAT; CF, AF, OF, SF, ZF of CMPS/SCAS as the CMP predicates over the two "
-         "elements (R9, closed forms over the memory cells and AX). Does NOT decide PF as a value nor overlapping source/destination.",
+         "elements and PF as the parity of the difference's low byte (R9, closed forms over the memory cells and AX). Does NOT decide overlapping source/destination.",
     design="DESIGN.md §6 C07")
 
 CHECKS["C09"] = dict(
